@@ -580,6 +580,44 @@ func TestC05(t *testing.T) {
 		}
 		rec.add("stretch_families", len(c05Stretches))
 		rec.flush()
+		// the length sweep: short units repeated to every length up to a bound, and to the lengths around
+		// powers of two - as a standalone expression, as a print command and as a quoted attribute value.
+		// (Whatever the scanner and the parser hand each other in pieces of some size, an input of exactly
+		// that size exists here.)
+		rec = newRecorder("C05w")
+		var lengths []int
+		for l := 1; l <= scale(140, 300); l++ {
+			lengths = append(lengths, l)
+		}
+		for _, p2 := range []int{256, 512, 1024, 4096, 65536} {
+			for l := p2 - 3; l <= p2+3; l++ {
+				lengths = append(lengths, l)
+			}
+		}
+		swept := 0
+		for _, unit := range []string{"(", "[", ")", "]", "-", "$", ",", ":", "?", "|", "'", "\"", ".", "1", "a", " ", "{", "}", "1,", "1+", "a.", "[]", "()", "''", "$a", "not ", "-1", "1 ", "é", "\xff"} {
+			for _, l := range lengths {
+				in := strings.Repeat(unit, l/len(unit)+1)[:l]
+				for _, c := range []C05Case{
+					{Kind: "expr", Input: []byte(in)},
+					{Kind: "file", Input: []byte("{namespace a}\n/** */\n{template .t}{" + in + "}{/template}\n")},
+					{Kind: "file", Input: []byte("{namespace a}\n/** */\n{template .t}{call .t data=\"" + in + "\" /}{/template}\n")},
+				} {
+					c.From, c.Show = "sweep", fmt.Sprintf("%d bytes of %q", l, unit)
+					if swept%64 == 0 || l > 200 {
+						writeCurrent("C05", c) // (a hang ends the process: the case is on disk then)
+					}
+					swept++
+					if v := checkC05(c); v.Err != nil {
+						writeFail("C05", c, v.Err)
+						rec.flush()
+						t.Fatalf("length sweep: %v", v.Err)
+					}
+				}
+			}
+		}
+		rec.add("length_sweep_inputs", swept)
+		rec.flush()
 	}
 	if thorough() && (shard() == "2" || os.Getenv("VERIF_NSHARDS") == "1") && os.Getenv("VERIF_REPLAY") == "" && os.Getenv("VERIF_CORPUS_ONLY") == "" {
 		// the deep tier: every nesting construct some millions of levels deep (inputs of 5-20 MB). The
